@@ -21,6 +21,7 @@ vp_size_t nondet_sz(); bool nondet_b();
 vp_size_t vp_in_n1, vp_in_n2, vp_in_bg; bool vp_in_bg_live;
 extern "C" void h_knob() {
   /* arbitrary earlier history: possibly a background limit, none of our slots live */
+  oneapi::tbb::info::vp_hw = nondet_sz(); __CPROVER_assume(oneapi::tbb::info::vp_hw >= 1 && oneapi::tbb::info::vp_hw <= 4096);   /* any machine */
   vp_bg_live = nondet_b(); vp_bg_val = nondet_sz();
   __CPROVER_assume(vp_bg_val >= 1);
   vp_size_t n1 = nondet_sz(), n2 = nondet_sz();
